@@ -154,6 +154,20 @@ func (h *History) drawUniverse() {
 		}
 		add(name, false)
 	}
+	if rapid.IntRange(0, 5).Draw(t, "caseVariant") == 0 {
+		// a sibling whose name differs only in letter case (Coop / COOP)
+		base := h.accs[rapid.IntRange(0, len(h.accs)-1).Draw(t, "caseVariantOf")].name
+		if i := strings.LastIndex(base, ":"); i > 0 {
+			seg := base[i+1:]
+			v := strings.ToUpper(seg)
+			if v == seg {
+				v = strings.ToLower(seg)
+			}
+			if v != seg {
+				add(base[:i+1]+v, false)
+			}
+		}
+	}
 	if h.cfg.Accruals {
 		add(rapid.SampledFrom([]string{"Assets:Accrual", "Liabilities:Accrued", "Equity:Accrual"}).Draw(t, "accrualAcc"), true)
 	}
@@ -477,6 +491,15 @@ func (h *History) step(act int) {
 		}
 		var d ref.Directive
 		h.drawPerf(&d)
+		// sometimes a twin of the previous transaction of the same day: same description, its bookings as a prefix
+		if n := len(h.ds); n > 0 && h.ds[n-1].Kind == ref.KTrx && h.ds[n-1].Date == h.day && h.ds[n-1].Accrual == nil &&
+			rapid.IntRange(0, 7).Draw(t, "twin") == 0 {
+			prev := h.ds[n-1]
+			d.Desc = prev.Desc
+			if rapid.Bool().Draw(t, "twinPrefix") {
+				bs = append(append([]ref.Booking{}, prev.Bookings...), bs...)
+			}
+		}
 		h.book(bs, d)
 	case 2: // assertion
 		if !cfg.Assertions {
@@ -601,7 +624,7 @@ func (h *History) step(act int) {
 		if iv == "daily" && length > 40 {
 			iv = "weekly"
 		}
-		if h.lastAccrual != nil && h.lastAccrual.Start >= lo && rapid.IntRange(0, 2).Draw(t, "sameWindow") == 0 {
+		if h.lastAccrual != nil && h.lastAccrual.Start >= lo && rapid.IntRange(0, 1).Draw(t, "sameWindow") == 0 {
 			// the same window as an earlier accrual, with another interval
 			start, end = h.lastAccrual.Start, h.lastAccrual.End
 			for _, cand := range []string{"monthly", "quarterly", "weekly"} {
